@@ -10,9 +10,9 @@ ID = 'C10'
 LEAN_MODULE = 'PncProofs.C10'
 LEAN_FILE = 'PncProofs/C10.lean'
 NAMESPACE = 'Props.C10'
-LEAN_CONE = ['PncModel.Cal', 'PncModel.TimeDec', 'PncModel.Arr', 'PncModel.Ioapi', 'PncProofs.IoapiLemmas', 'PncProofs.C10']
+LEAN_CONE = ['PncModel.Generated.IoapiStd', 'PncModel.Cal', 'PncModel.TimeDec', 'PncModel.Arr', 'PncModel.Ioapi', 'PncProofs.IoapiLemmas', 'PncProofs.C10']
 LEMMA_FILES = ['PncProofs/IoapiLemmas.lean']
-REQUIRED_THEOREMS = ['coherent_updatemeta', 'coherent_restack', 'coherent_create_then_updatemeta', 'create_variable_counterexample', 'copy_novars_counterexample', 'coherent_setvg', 'points_unlists', 'coherent_step', 'coherent_run', 'zero_listed_counterexample']
+REQUIRED_THEOREMS = ['coherent_updatemeta', 'coherent_restack', 'coherent_create_then_updatemeta', 'create_variable_counterexample', 'copy_novars_counterexample', 'coherent_setvg', 'points_unlists', 'coherent_step', 'coherent_run', 'zero_listed_counterexample', 'std_dims_match_source']
 RULE = ('IOAPI files from five sources (variable names of 2 to 16 characters; from_arrays gridded/boundary, from_arrays plus an unlisted 2-D variable, '
         'saved to disk and reopened with the ioapi reader, GRIDDESC text gridded/boundary) x sequences of 1-4 '
         'operations (copy, sliceDimensions with int / unit and strided slice / index-list windows on 1-2 dimensions, subsetVariables, renameVariable, '
